@@ -27,7 +27,7 @@
     point of reify_edges (reify_attributes), and with C11_reify_no_reifiable /
     C12_reify_attributes_no_attr both reifications are idempotent. *)
 From PM Require Import Spec.Idle Spec.WfGraph.
-From PM Require Import Proofs.Transform_lemmas Proofs.NormIdem_lemmas.
+From PM Require Import Proofs.Transform_lemmas Proofs.NormIdem_lemmas Proofs.IdleGen Proofs.NormIdemGen_lemmas.
 
 (* ------------------------------------------------------------------ *)
 (** * Graph level *)
@@ -108,6 +108,47 @@ Proof. exact second_pass_idle_c_plain. Qed.
 Print Assumptions C20c_certificate_without_canonicalize.
 
 (* ------------------------------------------------------------------ *)
+(** * The reify / dereify options together with --rearrange and --make-variables
+
+    Vocabulary (Proofs/IdleGen.v): [layout_tree_of o t] is the tree t0 the layout stage
+    returns for the input tree t; [general_idle o t]: t0 is well formed (C01), a layout
+    tree (C02) without empty concept slots ([concepts_written]), C10's provisos hold
+    for the names --make-variables gives RA o t0 ([relabel_certified]: the format has
+    an index, the new names are Symbols, no constant is spelled like one), and the
+    interpretation of what is finally written leaves the reify / dereify options
+    nothing to do; [general_certificate o s]: no --canonicalize-roles,
+    --indicate-branches, --reconfigure, --check, --triples and the above for every
+    graph of s; [any_certificate] = this one or the one of the previous section. *)
+
+Theorem C20c_no_empty_concept_slot : forall t, concepts_written (troot t) = true ->
+  drop_empty_concepts t = t.
+Proof. exact concepts_written_tree. Qed.
+Print Assumptions C20c_no_empty_concept_slot.
+
+(* what is written is the rearranged, relabelled layout output *)
+Theorem C20c_written_tree : forall o t t0, layout_tree_of o t = Ok t0 ->
+  pre_format o t = relabel o (RA o t0).
+Proof. exact pre_format_after_layout. Qed.
+Print Assumptions C20c_written_tree.
+
+Theorem C20c_general_tree_fixed : forall o t, tree_opts_only (strip_reify o) = true ->
+  general_idle o t = true ->
+  exists t1, pre_format o t = Ok t1 /\ wf_tree t1 = true /\
+             pipeline o t1 = Ok (format (o_indent o) (o_compact o) t1).
+Proof. exact general_tree_fixed. Qed.
+Print Assumptions C20c_general_tree_fixed.
+
+Theorem C20c_general_idempotent : forall o s out code, general_certificate o s = true ->
+  run o [] s = Ok (out, code) -> run o [] out = Ok (out, code).
+Proof. exact general_idempotent. Qed.
+Print Assumptions C20c_general_idempotent.
+
+Theorem C20c_any_certificate_sound : forall o s out code, any_certificate o s = true ->
+  run o [] s = Ok (out, code) -> run o [] out = Ok (out, code).
+Proof. exact any_certificate_sound. Qed.
+Print Assumptions C20c_any_certificate_sound.
+
+(* ------------------------------------------------------------------ *)
 (** * The certificate holds somewhere, and fails exactly where idempotence fails *)
 From PM Require Import Gen.AmrTable.
 
@@ -167,3 +208,16 @@ Example C20c_F33_refuted :
   idempotence_certificate c20c_f33_opts c20c_f33 = false /\
   second_pass_same c20c_f33_opts c20c_f33 = Some false.
 Proof. vm_compute. split; reflexivity. Qed.
+
+(* --amr --reify-edges --reify-attributes --rearrange attributes-first,canonical
+   --make-variables x{i} --indent no --compact on the two graphs above: certified
+   by the general certificate (not by the first one), and idempotent *)
+Definition c20c_all_opts : cli_opts :=
+  mkOpts amr_model false true false true false None
+         (Some [UAttributesFirst; UCanonical]) (Some [Lit [120%N]; Idx]) None true false false [].
+Example C20c_general_certificate_nonvacuous :
+  idempotence_certificate c20c_all_opts c20c_two_graphs = false /\
+  general_certificate c20c_all_opts c20c_two_graphs = true /\
+  second_pass_same c20c_all_opts c20c_two_graphs = Some true /\
+  (match run c20c_all_opts [] c20c_two_graphs with Ok (out, _) => negb (str_eqb out c20c_two_graphs) | _ => false end) = true.
+Proof. vm_compute. repeat split. Qed.
